@@ -38,6 +38,10 @@ _orig_impl_other = pipe.impl_other
 def _impl_other(ts, cfg, kind, timeout=10.0):
     if kind == "shexc_only":          # the random-prefix fallback is outside the model (oracle-only)
         return pipe.impl_shexc(ts, cfg, timeout=timeout)
+    if kind == "shexc_map":           # shape-map labels are outside the pipeline model (oracle-only)
+        return pipe.impl_shexc(ts, cfg, timeout=timeout,
+                               extra_kw={"shape_map_raw": cfg["_shape_map"], "all_classes_mode": False,
+                                         "target_classes": None})
     return _orig_impl_other(ts, cfg, kind, timeout)
 
 
@@ -110,6 +114,29 @@ def odd_local_names(ts, r):
     return out
 
 
+def shape_map_for(ts, cfg, r):
+    """node selectors -> labels given as full IRIs or prefixed names (pairwise distinct local names); some
+    selected nodes have no outgoing triple, so their shape is empty and gets removed with its referrers"""
+    if not any(n == "http://ex.org/" for n, _ in cfg["ns"]):
+        cfg["ns"] = cfg["ns"] + [("http://ex.org/", "ex")]
+    exp = [p for n, p in cfg["ns"] if n == "http://ex.org/"][0]
+    labels = ["<http://ex.org/shapes/S0>", "%s:S1" % exp, "<http://weso.es/shapes/S2>", "<http://lab.example/x#S3>"]
+    r.shuffle(labels)
+    labels = labels[:r.randint(2, 4)]
+    nodes = []
+    for s, p, o in ts:
+        for x in (s, o):
+            if x[0] == "I" and x[1] not in nodes and not re.search(r"[/#]C\d+$", x[1]):
+                nodes.append(x[1])
+    lines = []
+    for n in nodes:
+        for lab in r.sample(labels, r.choice([0, 1, 1, 2])):
+            lines.append("<%s>@%s" % (n, lab))
+    if not lines:
+        lines.append("<%s>@%s" % (nodes[0] if nodes else "http://ex.org/none", labels[0]))
+    return "\n".join(lines)
+
+
 def c05_cfg(r, ts, idx):
     cfg = pipeprops.random_cfg(r, ts, idx)
     k = r.random()
@@ -155,9 +182,15 @@ def gen_cases(tier, rnd):
             r.shuffle(cfg["ns"])
             runs = [(ts, cfg, "shexc_only")]
             stream = "random-prefix-fallback"
+        elif i % 16 == 13:
+            cfg["_shape_map"] = shape_map_for(ts, cfg, r)
+            cfg["all_classes"] = False
+            cfg["targets"] = []
+            runs = [(ts, cfg, "shexc_map")]
+            stream = "shape-map-labels"
         else:
             runs = [(ts, cfg)]
-        if i % 2 == 0:
+        if i % 2 == 0 and "_shape_map" not in cfg:
             sc = dict(cfg)
             sc["disable_or_statements"] = True      # SHACL is specified for the default only
             sc["allow_redundant_or"] = False
@@ -238,7 +271,8 @@ class Spec(pipeprops.PropSpec):
     rule = ("C01's graphs (general and schema-consistent, one or two namespaces) x all 2^6 switch assignments "
             "round-robin x thresholds on every k/n boundary x targets/all-classes x caps x remove_empty on/off x OR "
             "on/off x user dictionaries colliding with 0-3 of the default shape prefixes ('', weso-s, shapes, w-shapes) "
-            "or naming the shapes namespace; streams: all four prefixes taken (random fallback, oracle only), custom "
+            "or naming the shapes namespace; streams: all four prefixes taken (random fallback, oracle only), shape-map "
+            "labels as full IRIs / prefixed names with nodes without triples (oracle only), custom "
             "shapes_namespace (finding), two classes sharing a local name (finding), local names with dots/dashes/"
             "leading digits; every second case also SHACL; distinct = distinct (document, configuration); "
             "non-trivial = some class with >= 2 instances and some non-typing triple")
@@ -260,7 +294,7 @@ class Spec(pipeprops.PropSpec):
             kind = rn[2] if len(rn) > 2 else "shexc"
             if res[0] != "ok":
                 continue                      # crashes are C04's subject
-            if kind in ("shexc", "shexc_only"):
+            if kind in ("shexc", "shexc_only", "shexc_map"):
                 n += 1
                 bad = recognise(res[1])
                 if bad is not None:
